@@ -11,9 +11,9 @@ import json, os, re, shutil, subprocess, sys
 sys.path.insert(0, os.path.dirname(os.path.abspath(__file__)))
 import mutest
 
-SRC = "/tmp/mut_out"
+SRC = os.environ.get("SEED_SRC", "/tmp/mut_out")
 DST = "/verif/seeded"
-EXTRA = {"C11": ["C01"], "C02": ["C01"], "C01": ["C11"], "C09": ["C15"], "C10": []}
+EXTRA = {"C11": ["C01"], "C02": ["C01"], "C01": ["C11"], "C09": ["C15"], "C10": [], "C05": ["C06"]}
 
 
 def needs_of(notes):
@@ -28,7 +28,7 @@ def main():
     for i in ids:
         p, v = i.split("/")
         src = f"{SRC}/{p}/{v}"
-        dst = f"{DST}/{p}-{v}"
+        dst = f"{DST}/{p}-" + os.environ.get("SEED_SUFFIX", "") + v
         os.makedirs(dst, exist_ok=True)
         for f in ("patch.diff", "demo.py", "notes.md"):
             if os.path.exists(f"{src}/{f}"):
